@@ -105,6 +105,30 @@ func layoutsFor(tier string) []layout {
 			}
 			return mergeAll(w, other, 8)
 		}, true},
+		{"chunks9-none-merged-twice", func(c bs.BloomSearchEngineConfig) bs.BloomSearchEngineConfig {
+			// uncompressed sources (decoding returns the read buffer itself), blocks small
+			// enough that merges combine several of them, and merge outputs merged again
+			c.RowDataCompression = bs.CompressionNone
+			c.BloomFalsePositiveRate = 0.001
+			c.MaxRowGroupRows = 40
+			c.MaxFilesToMergePerOperation = 3
+			return c
+		}, func(w *World, rows []map[string]any) error {
+			if err := putChunks(w, rows, 9); err != nil {
+				return err
+			}
+			if err := mergeAll(w, w.Eng, 4); err != nil {
+				return err
+			}
+			oc := w.Cfg
+			oc.MaxRowGroupRows = 1 << 20
+			oc.MaxFilesToMergePerOperation = 8
+			other, err := w.engineWith(oc)
+			if err != nil {
+				return err
+			}
+			return mergeAll(w, other, 3)
+		}, false},
 		{"external-writer", func(c bs.BloomSearchEngineConfig) bs.BloomSearchEngineConfig {
 			c.BloomFalsePositiveRate = 0.01
 			return c
